@@ -492,3 +492,51 @@ def calls_in_loop(fn, loop):
         for i in fn.bmap[bid].insts:
             if i.op == 'call':
                 yield i
+
+
+# ------------------------------------------------------------------ R-VERBOSITY helper
+PRINT_CALLS = ('printf', 'fprintf', 'fflush', 'puts', 'putchar', 'fputs', 'fputc', 'putc')
+
+
+def term_mentions_global(t, g):
+    if not isinstance(t, tuple):
+        return False
+    if t[0] in ('global', 'goff') and t[1] == g:
+        return True
+    return any(term_mentions_global(x, g) for x in t[1:] if isinstance(x, tuple))
+
+
+def verbosity_regions_pure(fn, gname='of_verbosity'):
+    """Every branch on `gname` controls only regions made of print calls (no store, no other call): returns
+    (ok, offending instruction or None, number of such branches)."""
+    tt = Terms(fn)
+    n = 0
+    for b in fn.blocks:
+        t = b.term()
+        if t.op != 'br' or len(t.ops) != 3:
+            continue
+        if not term_mentions_global(tt.term(t.ops[0]), gname):
+            continue
+        n += 1
+        join = b.ipdom
+        stop = [join] if join not in (None, False) else []
+        region = set()
+        for s in b.succs:
+            if join is not None and s is join:
+                continue
+            region |= fn.reachable(s, stop=stop)
+        if join not in (None, False):
+            region.discard(join.id)
+        for bid in region:
+            for i in fn.bmap[bid].insts:
+                if i.op in ('load', 'getelementptr', 'br', 'bitcast', 'zext', 'sext', 'trunc', 'icmp', 'phi', 'ptrtoint',
+                            'sub', 'add', 'and', 'sdiv', 'udiv', 'mul', 'select', 'fpext', 'sitofp', 'uitofp', 'fdiv', 'fmul'):
+                    continue
+                if i.op == 'call' and i.callee in PRINT_CALLS:
+                    continue
+                return False, i, n
+    # any other use of the global (store, argument) is not a "print control"
+    for i in fn.all_insts():
+        if i.op == 'store' and term_mentions_global(tt.term(i.ops[1]), gname) and tt.term(i.ops[1])[0] in ('global', 'goff'):
+            return False, i, n
+    return True, None, n
